@@ -50,6 +50,35 @@ structure IsCStr (b : Bytes) (off len n : Nat) : Prop where
   live : ∀ i, i < n → byteAt b (off + i) ≠ 0
   term : byteAt b (off + n) = 0
 
+/-! ### what the right answer of a scan is (relations; each determines the answer uniquely) -/
+
+/-- `res` is the right answer for "the import directory at `rva`": the error of the slice if the
+RVA does not resolve to a 4-aligned window; else the `n` descriptors of the window (`IsImportDir`),
+`Bounds` if the window ends before any terminator — never a truncated table. -/
+def ImportDirAnswer (v : View) (rva : Nat) (res : Out Ref) : Prop :=
+  match v.at (.rva rva) 0 4 with
+  | .ok w => (∀ n, IsImportDir v.b w.off w.len n → res = .ok ⟨w.off, n * 20, 4⟩) ∧
+             ((∀ n, ¬ IsImportDir v.b w.off w.len n) → res = .err .bounds)
+  | .err e => res = .err e
+  | _ => False
+
+/-- the same for a zero-terminated thunk table (thunks of the format's width, naturally aligned) -/
+def ThunkTableAnswer (v : View) (rva : Nat) (res : Out Ref) : Prop :=
+  match v.at (.rva rva) 0 (vaSize v.fmt) with
+  | .ok w => (∀ n, IsThunkTable v.b w.off w.len (vaSize v.fmt) n → res = .ok ⟨w.off, n * vaSize v.fmt, vaSize v.fmt⟩) ∧
+             ((∀ n, ¬ IsThunkTable v.b w.off w.len (vaSize v.fmt) n) → res = .err .bounds)
+  | .err e => res = .err e
+  | _ => False
+
+/-- the same for a NUL-terminated string: the reference covers the string and its NUL; `Encoding`
+if the window holds no NUL -/
+def CStrAnswer (v : View) (rva : Nat) (res : Out Ref) : Prop :=
+  match v.at (.rva rva) 0 1 with
+  | .ok w => (∀ n, IsCStr v.b w.off w.len n → res = .ok ⟨w.off, n + 1, 1⟩) ∧
+             ((∀ n, ¬ IsCStr v.b w.off w.len n) → res = .err .encoding)
+  | .err e => res = .err e
+  | _ => False
+
 /-! ### thunk decoding (PE/COFF "Import Lookup Table") -/
 
 /-- number of bits of a thunk -/
@@ -95,7 +124,7 @@ def specTryFrom (v : View) : Out Ref :=
   | some (rva, _) =>
     match v.at (.rva rva) 0 4 with
     | .ok w => (match specDescCount v.b w.off w.len with
-        | .ok n => .ok ⟨w.off, 20 * n, 4⟩
+        | .ok n => .ok ⟨w.off, n * 20, 4⟩
         | .err e => .err e | .panic s => .panic s | .ub s => .ub s | .diverge => .diverge)
     | .err e => .err e | .panic s => .panic s | .ub s => .ub s | .diverge => .diverge
 
